@@ -113,6 +113,13 @@ CHECKS["C19"] = ("exploration", "timeout monitor with forced hand-over races: sc
     "Withheld answers, answers within +-20 ms of the caller's timer, forced races (caller parked after its timer fired or its context ended, then the answer arrives; dispatcher parked after taking the handler; the same for a renewal's OpenSecureChannel answer) and requests cancelled before they were written; un-forced calls must return within 3 x (timeout + leniency) heartbeats, nothing may stay blocked, no handler slot may remain and 10 later requests must still complete.",
     "heartbeat clock (<= elapsed ms); hook points only between critical sections", "3/C19")
 
+CHECKS["C16"] = ("exploration", "renewal monitor: scripted server with short revised lifetimes stamping issue/renewal events one-sidedly, concurrent callers with hook delays; independent client renewing against the real server under publish traffic incl. requests under the previous token",
+    "Client channels: per token exactly renewals (no re-open), none before half of the lifetime (one-sided timing, load cannot cause it), every request issued during three lifetimes answered with its own response. Server: five renewals by the independent client under a 3 ms subscription and concurrent reads, half of them followed by reads sealed with the previous token; everything must be answered and the connection must survive.",
+    "late renewals are counted, not asserted (load); real time must pass", "3/C16")
+CHECKS["C17"] = ("exploration", "expired-token injection monitor: the independent peer keeps superseded keys and injects a fresh-sequence chunk sealed with them after 1.25 x lifetime + margin, towards the real client (marked value must not be returned) and the real server (node value must not change)",
+    "Lifetimes 1 s and 2 s, Sign and SignAndEncrypt, margins 0.5 s and 2 s; controls under the current token precede each injection; the server case also records that the previous token is accepted while it is valid.",
+    "the harness can only be late (token more expired); expiry counted from the peer's own issue stamp", "3/C17")
+
 NOT_YET = {}
 
 
